@@ -463,6 +463,8 @@ static Token* skipDecl(Token* tok, std::vector<Token*>* inner = nullptr)
 
     if (!Token::Match(tok->previous(), "( %name%"))
         return tok;
+    if (tok->varId() != 0) // an expression that starts with a variable is not a declaration: "( a * f ( b ) )"
+        return tok;
     Token *vartok = tok;
     while (Token::Match(vartok, "%name%|*|&|&&|::|<")) {
         if (vartok->str() == "<") {
